@@ -556,7 +556,22 @@ func onePipe(o *opts, r *rng, s *summary, i int, pl *pipeline, distinct map[stri
 	if t.OK {
 		ref := logicalRoot(w) // links followed: what the files say, whatever is a link by now
 		target := pl.stages[len(pl.stages)-1]
-		t, w = p.do(Cmd{Kind: "commit", Targets: []string{target.file}, Copy: r.chance(1, 3)}, sems, want(11, 1, 27, 13), nil, nil)
+		ctargets := []string{target.file}
+		if r.chance(1, 2) {
+			// name an upstream stage of the target first: the target's records of its inputs must be
+			// refreshed all the same, whatever was committed earlier in this invocation
+			for _, up := range pl.stages {
+				for _, in := range target.ins {
+					if up != target && (in == up.out || in == up.dst || in == up.static) {
+						ctargets = []string{up.file, target.file}
+					}
+				}
+			}
+			if len(ctargets) == 2 {
+				s.count("commit:owner-named-before-consumer")
+			}
+		}
+		t, w = p.do(Cmd{Kind: "commit", Targets: ctargets, Copy: r.chance(1, 3)}, sems, want(11, 1, 27, 13, 7), nil, nil)
 		add(t, "commit of the last stage after the final run")
 		if t.OK {
 			// right after a successful commit everything in its scope is reported up to date
